@@ -8,8 +8,9 @@ import LentilVerif.Lemmas.ZernikeAngular
 Property theorems only. Model: `Model/Zernike.lean` (hand-written, tied to `lentil/zernike.py` by the correspondence harness
 tools/harness/c11.py for every j ≤ 861, every valid (n, m) with n ≤ 40, mode values on dyadic nodes and random masks).
 
-Not proved (named in the harness `UNPROVEN`): `|Z_j| ≤ 1` without normalisation; the angular integrals over a period
-(`∫cos² = ∫sin² = π`, cross terms 0) are used as given; the radial Gram table stops at n = 20. -/
+Not proved (named in the harness `UNPROVEN`): `|Z_j| ≤ 1` without normalisation; the radial Gram table stops at n = 20; the
+factorisation of the disk integral of a product of modes into (radial integral) × (angular integral) is not formalised — the
+radial (`radial_gram`) and angular (`normalisation_unit_mean_square`, `azimuthal_orthogonality`) factors are proved separately. -/
 namespace Lentil.C11
 open Lentil Finset
 
@@ -178,6 +179,14 @@ theorem normalisation_unit_mean_square (n m : ℕ) :
     rw [angular_cos_sq m hm, angular_sin_sq m hm]
     simp only [normSq, if_neg m0, if_neg m1]
     constructor <;> (push_cast; field_simp)
+
+/-- **azimuthal orthogonality**: over a period, `cos(mθ)·cos(m'θ)` and `sin(mθ)·sin(m'θ)` integrate to 0 for m ≠ m', and
+`cos(mθ)·sin(m'θ)` integrates to 0 for all m, m' — so modes with different azimuthal order, or the cosine and sine mode of the
+same order, have vanishing cross products whatever their radial parts -/
+theorem azimuthal_orthogonality (m m' : ℕ) :
+    (m ≠ m' → ∫ θ in (0 : ℝ)..(2 * Real.pi), Real.cos ((m : ℝ) * θ) * Real.cos ((m' : ℝ) * θ) = 0) ∧
+    (m ≠ m' → ∫ θ in (0 : ℝ)..(2 * Real.pi), Real.sin ((m : ℝ) * θ) * Real.sin ((m' : ℝ) * θ) = 0) ∧
+    (∫ θ in (0 : ℝ)..(2 * Real.pi), Real.cos ((m : ℝ) * θ) * Real.sin ((m' : ℝ) * θ) = 0) := angular_cross m m'
 
 /-! ## coordinates: centroid origin, unit radius at the farthest sample, support only -/
 
